@@ -6,7 +6,8 @@ import TorchDataVerif.Proofs.MPBase
 the ghost flag.  Every helper of the model, and `step` itself, commutes with `rebase`: this is what lets
 the one-epoch theorems (stated from `init c`) be lifted to every epoch of a run with resets.
 -/
-namespace TDV.MP
+namespace TDV.MPU
+open TDV.MP
 
 def rebase (o : List Obs) (b : Bool) (s : State) : State :=
   { s with obs := o ++ s.obs, bad := b || s.bad }
@@ -62,7 +63,9 @@ theorem takeSnapshot_rebase (c : Cfg) (o : List Obs) (b : Bool) (s : State) :
     · simp [hio]; rfl
   · by_cases he : e.1 + 1 = s.rcvdIdx
     · simp [he]; rfl
-    · simp [he]
+    · by_cases hio : c.inOrder = true
+      · simp [he, hio]
+      · simp [he, hio]; rfl
 
 /-- `yieldItem` after its first `let`. -/
 def yieldTail (c : Cfg) (s : State) (b : Nat) : State × Obs :=
@@ -391,4 +394,81 @@ theorem step_rebase_poll (c : Cfg) (o : List Obs) (b : Bool) (s : State) :
       simp only [Option.map_some, markAll_rebase]
       simp [rebase]
 
-end TDV.MP
+/-- The completion of `_reset` when the last acknowledgement `r` is received (`s` already without `r`). -/
+def ackDone (c : Cfg) (s : State) (r : Res) : State :=
+  let s1 := resetTail c { s with wsnaps := applyDelta s.wsnaps r.w r.st }
+  { s1 with phase := .idle, obs := s1.obs ++ [.resetDone] }
+
+theorem ackDone_rebase (c : Cfg) (o : List Obs) (b : Bool) (s : State) (r : Res) :
+    ackDone c (rebase o b s) r = rebase o b (ackDone c s r) := by
+  have e : ({ rebase o b s with wsnaps := applyDelta (rebase o b s).wsnaps r.w r.st } : State)
+      = rebase o b { s with wsnaps := applyDelta s.wsnaps r.w r.st } := rfl
+  unfold ackDone
+  rw [e, resetTail_rebase]
+  simp [rebase]
+
+theorem step_recv_eq (c : Cfg) (s : State) :
+    step c s .recv =
+      match s.resQ with
+      | [] => none
+      | r :: rest =>
+        match s.phase with
+        | .idle => none
+        | .waiting => if r.kind = .ack then none else some (recvData c { s with resQ := rest } r)
+        | .resuming k =>
+          if r.kind = .ack then
+            if k ≤ 1 then some (ackDone c { s with resQ := rest } r)
+            else some { s with resQ := rest, wsnaps := applyDelta s.wsnaps r.w r.st, phase := .resuming (k - 1) }
+          else some { s with resQ := rest } := rfl
+
+theorem step_rebase_recv (c : Cfg) (o : List Obs) (b : Bool) (s : State) :
+    step c (rebase o b s) .recv = (step c s .recv).map (rebase o b) := by
+  have h1 : (rebase o b s).phase = s.phase := rfl
+  have h2 : (rebase o b s).resQ = s.resQ := rfl
+  rw [step_recv_eq, step_recv_eq, h1, h2]
+  cases s.resQ with
+  | nil => rfl
+  | cons r rest =>
+    cases s.phase with
+    | idle => rfl
+    | waiting =>
+      simp only
+      by_cases hk : r.kind = .ack
+      · rw [if_pos hk, if_pos hk]; rfl
+      · rw [if_neg hk, if_neg hk]
+        show some (recvData c (rebase o b { s with resQ := rest, phase := .waiting }) r) = _
+        rw [recvData_rebase]; rfl
+    | resuming k =>
+      simp only
+      by_cases hk : r.kind = .ack
+      · rw [if_pos hk, if_pos hk]
+        by_cases h1 : k ≤ 1
+        · rw [if_pos h1, if_pos h1]
+          show some (ackDone c (rebase o b { s with resQ := rest, phase := .resuming k }) r) = _
+          rw [ackDone_rebase]; rfl
+        · rw [if_neg h1, if_neg h1]; rfl
+      · rw [if_neg hk, if_neg hk]; rfl
+
+/-- **The transition function is independent of the observation history and of the ghost flag.** -/
+theorem step_rebase (c : Cfg) (o : List Obs) (b : Bool) (s : State) (a : Action) :
+    step c (rebase o b s) a = (step c s a).map (rebase o b) := by
+  cases a with
+  | work w => exact step_rebase_work c o b s w
+  | recv => exact step_rebase_recv c o b s
+  | next => exact step_rebase_next c o b s
+  | stateDict => exact step_rebase_stateDict c o b s
+  | reset => exact step_rebase_reset c o b s
+  | kill w => exact step_rebase_kill c o b s w
+  | pollTimeout => exact step_rebase_poll c o b s
+
+theorem run_rebase (c : Cfg) (o : List Obs) (b : Bool) (as : List Action) (s : State) :
+    run c (rebase o b s) as = (run c s as).map (rebase o b) := by
+  induction as generalizing s with
+  | nil => rfl
+  | cons a as ih =>
+    simp only [run, step_rebase]
+    cases step c s a with
+    | none => rfl
+    | some s' => exact ih s'
+
+end TDV.MPU
